@@ -13,6 +13,7 @@ func main() {
 		"arb": func(f []string) string { return k8s.VerifArb(verifio.KV(f)) },
 		"polst": func(f []string) string { return k8s.VerifPolicyStatus(verifio.KV(f)) },
 		"eps": func(f []string) string { return k8s.VerifEps(verifio.KV(f)) },
+		"refs": func(f []string) string { return k8s.VerifRefs(verifio.KV(f)) },
 		"cls": func(f []string) string { return k8s.VerifClass(verifio.KV(f)) },
 	})
 }
